@@ -443,7 +443,12 @@ def drums(ctx):
   ctx.ob('INV/drums-decode', dec, dec.node, ok, 'decode reads the bits from the least significant end and takes the first pitch of each type' if ok else
          'decode_event does not read bit i (LSB first) as drum type i / take the first pitch of the type')
   r = [s for s in U.walk_stmts(nc.node) if isinstance(s, ast.Return)]
-  ok = len(r) == 1 and norm_text(r[0].value) == '2 ** len(self._drum_map)'
+  ok = False
+  if len(r) == 1:
+    try:
+      ok = nf.rat(U.expand_locals(nc.node, r[0].value, at=r[0])).equals(nf.rat(E('2 ** len(self._drum_map)')))
+    except nf.NFError:
+      ok = False
   ctx.ob('WIDTH/drums', nc, r[0] if r else nc.node, ok, 'num_classes = 2 ** number of drum types' if ok else 'num_classes is not 2 ** len(drum map)')
 
 
@@ -478,12 +483,31 @@ def velocity(ctx):
          'velocity_bin_to_velocity is not MIN_MIDI_VELOCITY + (bin - 1) * _velocity_bin_size(n): it is not a right inverse of velocity_to_bin')
   r3 = [s for s in U.walk_stmts(sz.node) if isinstance(s, ast.Return)]
   ok3 = False
+  calls = []
   if len(r3) == 1:
     calls = [dotted(c.func) for c in U.calls_in(r3[0].value)]
     div = [n for n in ast.walk(r3[0].value) if isinstance(n, ast.BinOp) and isinstance(n.op, ast.Div)]
-    ok3 = 'math.ceil' in calls and len(div) == 1 and nf.rat(div[0].left).equals(nf.rat(E('MAX_MIDI_VELOCITY - MIN_MIDI_VELOCITY + 1'))) and norm_text(div[0].right) == sz.params()[0]
+    ex = U.expand_locals(sz.node, r3[0].value, sz.module.assigns, at=r3[0])
+    calls = [dotted(c.func) for c in U.calls_in(ex)]
+    div = [n for n in ast.walk(ex) if isinstance(n, ast.BinOp) and isinstance(n.op, ast.Div)]
+    want_num = nf.rat(U.expand_locals(sz.node, E('MAX_MIDI_VELOCITY - MIN_MIDI_VELOCITY + 1'), sz.module.assigns))
+    try:
+      ok3 = 'math.ceil' in calls and len(div) == 1 and nf.rat(div[0].left).equals(want_num) and norm_text(div[0].right) == sz.params()[0]
+    except nf.NFError:
+      ok3 = False
+  # positively wrong: the quotient is rounded down / to nearest; any other way of writing the size is not classified
+  wrong = r3 and not ok3 and any(c in ('math.floor', 'round', 'int') for c in calls) and 'math.ceil' not in calls or \
+      (r3 and not ok3 and any(isinstance(n, ast.BinOp) and isinstance(n.op, ast.FloorDiv) for n in ast.walk(r3[0].value)) and
+       not any(isinstance(n, ast.UnaryOp) and isinstance(n.op, ast.USub) for n in ast.walk(r3[0].value)))
+  try:
+    # located and different in normal form: ceil(<another constant> / bins)
+    if r3 and not ok3 and 'math.ceil' in calls and len(div) == 1 and norm_text(div[0].right) == sz.params()[0] and (nf.rat(div[0].left) - want_num).const_value() not in (None, 0):
+      wrong = True
+  except nf.NFError:
+    pass
   ctx.ob('VEL/bin-size', sz, r3[0] if r3 else sz.node, ok3, 'size = ceil((MAX - MIN + 1) / bins): every velocity falls into 1..bins' if ok3 else
-         'bin size is not ceil((MAX_MIDI_VELOCITY - MIN_MIDI_VELOCITY + 1) / bins)')
+         'bin size is not ceil((MAX_MIDI_VELOCITY - MIN_MIDI_VELOCITY + 1) / bins)', definite=bool(wrong),
+         unknown=None if (ok3 or wrong) else 'the bin size is not written as int(math.ceil(<range> / bins)) nor as a recognisable floor / round')
 
 
 MUTANTS = [
